@@ -67,8 +67,9 @@ Qed.
 (* Well-formed files: for both versions (and the "crude" size convention), every item set
    (grouped by ascending u16 type id, u16 ids, i32 words) and every list of data items
    whose serialization stays below 2 GiB: the reader accepts the file the writer
-   specification (doc/datafile.md) prescribes and returns exactly the items, in order, and
-   exactly the data. Version 4 under the one hypothesis uncompress (compress d) = d. *)
+   specification (doc/datafile.md) prescribes and returns exactly the items, in order,
+   exactly the data, the item types in order and for each type exactly the index range of
+   its items. Version 4 under the one hypothesis uncompress (compress d) = d. *)
 Theorem C16_wellformed : forall compress uncompress ver crude gs datas,
   ver = 3 \/ ver = 4 -> wf_input compress ver gs datas = true ->
   (ver = 4 -> forall d, In d datas -> uncompress (zlen d) (compress d) = ZOk d) ->
@@ -79,13 +80,18 @@ Theorem C16_wellformed : forall compress uncompress ver crude gs datas,
              = flat_map (fun g : dgroup => map (pair (fst g)) (snd g)) gs
           /\ Forall (view_inside r) vs)
     /\ num_data r = Ok (zlen datas)
-    /\ (forall i d, nth_error datas i = Some d -> read_data uncompress r (Z.of_nat i) = Ok d).
+    /\ (forall i d, nth_error datas i = Some d -> read_data uncompress r (Z.of_nat i) = Ok d)
+    /\ item_types r = Ok (map fst gs)
+    /\ (forall before g after, gs = before ++ g :: after ->
+          item_type_indices r (fst g) = Ok (zlen (all_ditems before), zlen (all_ditems before) + zlen (snd g))).
 Proof.
   intros compress unc ver crude gs datas Hver Hwf Hunc.
-  destruct (wellformed_roundtrip compress unc ver crude gs datas Hver Hwf Hunc) as (r & H1 & H2 & H3 & H4 & H5).
-  exists r. repeat split; auto.
-  intros i d Hi. apply nth_error_split in Hi. destruct Hi as (pre & post & Hd & Hlen).
-  rewrite <- Hlen. exact (H5 pre d post Hd).
+  destruct (wellformed_roundtrip compress unc ver crude gs datas Hver Hwf Hunc) as (r & H1 & H2 & H3 & H4 & H5 & H6 & H7).
+  exists r. split; [exact H1|]. split; [exact H2|]. split; [exact H3|]. split; [exact H4|].
+  split; [|split; [exact H6|]].
+  - intros i d Hi. apply nth_error_split in Hi. destruct Hi as (pre & post & Hd & Hlen).
+    rewrite <- Hlen. exact (H5 pre d post Hd).
+  - intros before g after Hg. rewrite <- (zlen_titems before). exact (H7 before g after Hg).
 Qed.
 
 (* Map layer: on every accepted datafile, every map accessor returns a value or an error --
